@@ -4,6 +4,7 @@ import os
 import common
 
 PROPS = "RotoV.Props.C03"
+PROPS_GLUE = "RotoV.Props.C03Glue"
 GEN = os.path.join(common.LEAN, "RotoV", "Generated", "C03Dumps.lean")
 
 
@@ -28,25 +29,44 @@ def search(ctx):
 
 
 def run(ctx):
+    # the per-field loops of drops.rs / clones.rs as they are written today
+    ctx.extract(["glueloops"])
     built = ctx.build_harness("c03")
     if built:
         emit_dumps(ctx)
-    ctx.prove(PROPS, extra_modules=["RotoV.Lemmas.Mir", "RotoV.Model.Mir", "RotoV.Model.MirFrozen",
-                                    "RotoV.Generated.C03Dumps"])
+    theorems, examples, axioms = [], 0, {}
+    for mod, extra in [
+        (PROPS, ["RotoV.Lemmas.Mir", "RotoV.Model.Mir", "RotoV.Model.MirFrozen", "RotoV.Generated.C03Dumps"]),
+        (PROPS_GLUE, ["RotoV.Lemmas.Glue", "RotoV.Model.Glue", "RotoV.Generated.GlueLoops"]),
+    ]:
+        ctx.prove(mod, extra_modules=extra)
+        theorems += ctx.coverage.get("theorems", [])
+        examples += ctx.coverage.get("nonvacuity_examples", 0)
+        axioms.update(ctx.coverage.get("axioms", {}))
+        for k in ("theorems", "nonvacuity_examples", "axioms"):
+            ctx.coverage.pop(k, None)
+    ctx.coverage["theorems"] = theorems
+    ctx.coverage["nonvacuity_examples"] = examples
+    ctx.coverage["axioms"] = axioms
     if built:
         ctx.harness("c03", ["run", ctx.seed, ctx.tier, ctx.repo], timeout=3000)
     ctx.trusted += [
         "the hook roto::verif_hooks::c03 dumps the MIR the later stages consume, and the needs_drop bit is the LIR lowerer's own (Lowerer::needs_drop)",
         "ownership reading of MIR instructions (DESIGN §10): call arguments are consumed, Clone/Constant/Context/call results/String literals create, "
         "Move transfers; validated by the measured oracle (Tk counters, allocation balance) on every generated program",
-        "inside one unit the generated drop function releases exactly what the clone function creates (drops.rs / clones.rs: measured, not proved)",
+        "drop / clone glue (RotoV/Model/Glue.lean): the per-field loops are translated from drops.rs / clones.rs on every run; what surrounds them "
+        "(call_drop_of, call_clone_function, the discriminant switch with the last variant as default, layout_of, LayoutBuilder) is a hand model, "
+        "compared with the generated drop functions in the real LIR for every generated declaration; the reference placement of leaves is the one of "
+        "Lowerer::location (fresh builder, tag first, every field added in order)",
         "the program quantifier is sampled: ownCheck runs on the compiler's actual output for generated programs and the repository's scripts",
     ]
     return ctx.finish(
         level="proof",
         rule="a class is distinct by (verdict, constructs used in main: while/for/match/guards/return/accept/reject/?/&&/||/record/enum/"
              "f-string/constant/list/wildcard/field-assign/push with counts capped at 3); every program runs on 32 steering inputs "
-             "(n,m in {0,1,2,5}, c in {false,true}), twice where balanced (second call measures heap allocations); corpus items count once",
+             "(n,m in {0,1,2,5}, c in {false,true}), twice where balanced (second call measures heap allocations); corpus items count once; "
+             "a glue program is distinct by the field pattern of its declarations (size class of each non-droppable field, D = droppable leaf, "
+             "O = Tk?, R/E = nested record/enum, order kept)",
         search=search,
     )
 
@@ -60,8 +80,14 @@ def replay(ctx, data):
     inp = dict(data["input"])
     inp.setdefault("key", data.get("key", ""))
     rep = ctx.harness("c03", ["replay", json.dumps(inp)])
-    # the defect replays iff the same construct class is reported again
-    again = [v for v in (rep or {}).get("impl_violations", []) if v.get("key") == data.get("key")]
+    # the defect replays iff the same construct class is reported again (for an unclassified
+    # rejection, `other:<block>:<reason>`, the checker may name another of several offending
+    # instructions first: any unclassified rejection with a measured imbalance counts)
+    def fam(k):
+        return "other" if (k or "").startswith("other:") else k
+    again = [v for v in (rep or {}).get("impl_violations", [])
+             if fam(v.get("key")) == fam(data.get("key"))
+             and (data.get("input", {}).get("confirmed") is False or v.get("input", {}).get("confirmed") is not False)]
     for v in again[:1]:
         print(f"[C03] replayed: {v.get('what')}")
     return 1 if again else 0
